@@ -1,145 +1,215 @@
 """Type-directed random construction of constraint programs THROUGH THE REAL DSL (dunders, reflected forms,
-helper constructors, literals, nested lists), for C01/C02/C03/C12."""
+helper constructors, literals, nested lists), for C01/C02/C03/C12.
+
+Every construct is built twice: the real object (through the DSL under test) and a SHADOW meaning -- a plain Python
+closure `asg -> value` computed from the intended meaning of the construction step itself (count_true = number of true
+items, fold_or = disjunction, ...).  The oracle of the failing-input searches is the shadow, so a defect inside a DSL
+constructor (which would also corrupt the tree) is visible."""
 from . import exprio
 
 
+def _name(v):
+    from cspuz.expr import BoolVar
+    return (f"b{v.id}" if isinstance(v, BoolVar) else f"i{v.id}")
+
+
 class Gen:
-    def __init__(self, rng, solver, bools, ints, degenerate=0.15, allow_graph=False):
+    def __init__(self, rng, solver, bools, ints, degenerate=0.15):
         self.rng = rng
         self.s = solver
         self.bools = bools
         self.ints = ints
         self.deg = degenerate
 
+    # every method returns (real_object, shadow) ----------------------------------------------------------
     def lit_int(self):
-        return self.rng.randint(-3, 3)
+        k = self.rng.randint(-3, 3)
+        return k, (lambda a, k=k: k)
+
+    def var_int(self):
+        v = self.rng.choice(self.ints)
+        return v, (lambda a, n=_name(v): a[n])
+
+    def var_bool(self):
+        v = self.rng.choice(self.bools)
+        return v, (lambda a, n=_name(v): a[n])
 
     def int_expr(self, d, allow_lit=True):
-        """An IntExpr (or, if allow_lit, possibly a Python int)."""
         import cspuz
         r = self.rng
         if d <= 0 or r.random() < 0.25:
             if allow_lit and r.random() < 0.25:
                 return self.lit_int()
             if self.ints:
-                return r.choice(self.ints)
-            return cspuz.count_true(r.choice(self.bools)) if self.bools else cspuz.count_true()
+                return self.var_int()
+            if self.bools:
+                b, sb = self.var_bool()
+                return cspuz.count_true(b), (lambda a, sb=sb: 1 if sb(a) else 0)
+            return cspuz.count_true(), (lambda a: 0)
         k = r.random()
         if k < 0.12:
-            return -self.int_expr(d - 1, False)
+            x, sx_ = self.int_expr(d - 1, False)
+            return -x, (lambda a: -sx_(a))
         if k < 0.30:
-            a = self.int_expr(d - 1, False)
-            return a + self.int_expr(d - 1)
+            x, sx_ = self.int_expr(d - 1, False)
+            y, sy = self.int_expr(d - 1)
+            return x + y, (lambda a: sx_(a) + sy(a))
         if k < 0.38:
-            return self.lit_int() + self.int_expr(d - 1, False)
+            x, sx_ = self.lit_int()
+            y, sy = self.int_expr(d - 1, False)
+            return x + y, (lambda a: sx_(a) + sy(a))
         if k < 0.50:
-            a = self.int_expr(d - 1, False)
-            return a - self.int_expr(d - 1)
+            x, sx_ = self.int_expr(d - 1, False)
+            y, sy = self.int_expr(d - 1)
+            return x - y, (lambda a: sx_(a) - sy(a))
         if k < 0.56:
-            return self.lit_int() - self.int_expr(d - 1, False)
+            x, sx_ = self.lit_int()
+            y, sy = self.int_expr(d - 1, False)
+            return x - y, (lambda a: sx_(a) - sy(a))
         if k < 0.70:
-            c = self.bool_expr(d - 1, False)
-            return c.cond(self.int_expr(d - 1), self.int_expr(d - 1))
+            c, sc = self.bool_expr(d - 1, False)
+            t, st = self.int_expr(d - 1)
+            f, sf = self.int_expr(d - 1)
+            return c.cond(t, f), (lambda a: st(a) if sc(a) else sf(a))
         if k < 0.88:
-            return cspuz.count_true(self.bool_nest(d - 1))
+            nest, sems = self.bool_nest(d - 1)
+            return cspuz.count_true(nest), (lambda a, sems=sems: sum(1 for s in sems if s(a)))
         if k < 0.94:
-            return cspuz.count_true()   # INT_CONSTANT 0
-        return self.int_expr(d - 1, False) + 0
+            return cspuz.count_true(), (lambda a: 0)
+        x, sx_ = self.int_expr(d - 1, False)
+        return x + 0, (lambda a: sx_(a))
 
     def bool_nest(self, d):
+        """A nested argument list for the aggregate helpers; returns (nest, flat list of shadows)."""
         r = self.rng
         n = r.choice([0, 1, 1, 2, 3, 4])
-        items = []
+        items, sems = [], []
         for _ in range(n):
             q = r.random()
-            if q < 0.15:
-                items.append(r.random() < 0.5)
-            elif q < 0.3:
-                items.append([self.bool_expr(d, True) for _ in range(r.randint(0, 2))])
+            if q < 0.2:
+                b = r.random() < 0.5
+                items.append(b)
+                sems.append(lambda a, b=b: b)
+            elif q < 0.35:
+                sub = [self.bool_expr(d, True) for _ in range(r.randint(0, 2))]
+                items.append([x for x, _ in sub])
+                sems += [s for _, s in sub]
             else:
-                items.append(self.bool_expr(d, True))
-        return items
+                x, s = self.bool_expr(d, True)
+                items.append(x)
+                sems.append(s)
+        if r.random() < 0.1:   # constant-only forms
+            items = [r.random() < 0.5 for _ in range(r.randint(1, 3))]
+            sems = [(lambda a, b=b: b) for b in items]
+        return items, sems
 
     def bool_expr(self, d, allow_lit=True):
         import cspuz
+        from cspuz.constraints import then as _then
         r = self.rng
         if d <= 0 or r.random() < 0.2:
             if allow_lit and r.random() < 0.2:
-                return r.random() < 0.5
+                b = r.random() < 0.5
+                return b, (lambda a, b=b: b)
             if self.bools:
-                return r.choice(self.bools)
-            return self.int_expr(0, False) == self.lit_int()
+                return self.var_bool()
+            x, sx_ = self.int_expr(0, False)
+            k, sk = self.lit_int()
+            return x == k, (lambda a: sx_(a) == sk(a))
         k = r.random()
         if k < 0.08:
-            return ~self.bool_expr(d - 1, False)
-        if k < 0.30:
-            a = self.int_expr(d - 1, False)
-            b = self.int_expr(d - 1)
-            op = r.choice(["==", "!=", "<=", "<", ">=", ">"])
-            return {"==": a == b, "!=": a != b, "<=": a <= b, "<": a < b, ">=": a >= b, ">": a > b}[op]
+            x, sx_ = self.bool_expr(d - 1, False)
+            return ~x, (lambda a: not sx_(a))
         if k < 0.36:
-            a = self.lit_int()
-            b = self.int_expr(d - 1, False)
+            if k < 0.30:
+                x, sx_ = self.int_expr(d - 1, False)
+                y, sy = self.int_expr(d - 1)
+            else:
+                x, sx_ = self.lit_int()
+                y, sy = self.int_expr(d - 1, False)
             op = r.choice(["==", "!=", "<=", "<", ">=", ">"])
-            return {"==": a == b, "!=": a != b, "<=": a <= b, "<": a < b, ">=": a >= b, ">": a > b}[op]
-        if k < 0.52:
-            a = self.bool_expr(d - 1, False)
-            b = self.bool_expr(d - 1)
-            op = r.choice(["&", "|", "==", "!=", "^", "then"])
-            if op == "&":
-                return a & b
-            if op == "|":
-                return a | b
-            if op == "==":
-                return a == b
-            if op == "!=":
-                return a != b
-            if op == "^":
-                return a ^ b
-            return a.then(b)
+            obj = {"==": lambda: x == y, "!=": lambda: x != y, "<=": lambda: x <= y, "<": lambda: x < y,
+                   ">=": lambda: x >= y, ">": lambda: x > y}[op]()
+            sem = {"==": lambda a: sx_(a) == sy(a), "!=": lambda a: sx_(a) != sy(a), "<=": lambda a: sx_(a) <= sy(a),
+                   "<": lambda a: sx_(a) < sy(a), ">=": lambda a: sx_(a) >= sy(a), ">": lambda a: sx_(a) > sy(a)}[op]
+            return obj, sem
         if k < 0.58:
-            a = r.random() < 0.5
-            b = self.bool_expr(d - 1, False)
-            op = r.choice(["&", "|", "^"])
-            return (a & b) if op == "&" else (a | b) if op == "|" else (a ^ b)
+            if k < 0.52:
+                x, sx_ = self.bool_expr(d - 1, False)
+                y, sy = self.bool_expr(d - 1)
+                ops = ["&", "|", "==", "!=", "^", "then"]
+            else:
+                b = r.random() < 0.5
+                x, sx_ = b, (lambda a, b=b: b)
+                y, sy = self.bool_expr(d - 1, False)
+                ops = ["&", "|", "^"]
+            op = r.choice(ops)
+            obj = {"&": lambda: x & y, "|": lambda: x | y, "==": lambda: x == y, "!=": lambda: x != y, "^": lambda: x ^ y,
+                   "then": lambda: x.then(y)}[op]()
+            sem = {"&": lambda a: sx_(a) and sy(a), "|": lambda a: sx_(a) or sy(a), "==": lambda a: sx_(a) == sy(a),
+                   "!=": lambda a: sx_(a) != sy(a), "^": lambda a: sx_(a) != sy(a), "then": lambda a: (not sx_(a)) or sy(a)}[op]
+            return obj, sem
         if k < 0.68:
-            return cspuz.fold_or(self.bool_nest(d - 1))
+            nest, sems = self.bool_nest(d - 1)
+            return cspuz.fold_or(nest), (lambda a, sems=sems: any(s(a) for s in sems))
         if k < 0.78:
-            return cspuz.fold_and(self.bool_nest(d - 1))
+            nest, sems = self.bool_nest(d - 1)
+            return cspuz.fold_and(nest), (lambda a, sems=sems: all(s(a) for s in sems))
         if k < 0.88:
             n = r.choice([0, 1, 2, 2, 3, 4])
-            items = [self.int_expr(d - 1) for _ in range(n)]
+            parts = [self.int_expr(d - 1) for _ in range(n)]
+            items = [x for x, _ in parts]
+            sems = [s for _, s in parts]
             if r.random() < 0.3:
                 items = [items[: len(items) // 2], items[len(items) // 2:]]
-            return cspuz.alldifferent(items)
+            return cspuz.alldifferent(items), (lambda a, sems=sems: len({s(a) for s in sems}) == len(sems))
         if k < 0.94:
-            from cspuz.constraints import then as _then
-            return _then(self.bool_expr(d - 1, False), self.bool_expr(d - 1))
-        return cspuz.fold_or() if r.random() < 0.5 else cspuz.fold_and()
+            x, sx_ = self.bool_expr(d - 1, False)
+            y, sy = self.bool_expr(d - 1)
+            return _then(x, y), (lambda a: (not sx_(a)) or sy(a))
+        if r.random() < 0.5:
+            return cspuz.fold_or(), (lambda a: False)
+        return cspuz.fold_and(), (lambda a: True)
+
+
+def post(solver, gen, rng, depth):
+    """Post one (possibly nested) ensure; records the shadow of every flattened item in solver._verif_sems."""
+    c, sc = gen.bool_expr(rng.randint(0, depth))
+    if rng.random() < 0.2:
+        c2, sc2 = gen.bool_expr(1)
+        solver.ensure([c, [c2]])
+        solver._verif_sems += [sc, sc2]
+    else:
+        solver.ensure(c)
+        solver._verif_sems.append(sc)
 
 
 def random_session(rng, max_bools=3, max_ints=3, depth=3, nconstraints=(1, 4), dom=(-2, 3)):
-    """Returns (solver, bools, ints) with constraints already posted."""
+    """Returns (solver, bools, ints) with constraints already posted (shadows in solver._verif_sems)."""
     from cspuz import Solver
     s = Solver()
+    s._verif_sems = []
     bools = [s.bool_var() for _ in range(rng.randint(0, max_bools))]
     ints = []
     for _ in range(rng.randint(0 if bools else 1, max_ints)):
-        lo = rng.randint(dom[0], dom[1])
-        hi = rng.randint(lo, min(dom[1], lo + 3))
+        if rng.random() < 0.12:
+            # values outside CPython's small-int cache (-5..256): fresh int objects on every solve
+            base = rng.choice([298, -304, 1000, 257])
+            lo = base + rng.randint(0, 2)
+            hi = lo + rng.randint(0, 2)
+        else:
+            lo = rng.randint(dom[0], dom[1])
+            hi = rng.randint(lo, min(dom[1], lo + 3))
         ints.append(s.int_var(lo, hi))
     g = Gen(rng, s, bools, ints)
     for _ in range(rng.randint(*nconstraints)):
-        c = g.bool_expr(rng.randint(0, depth))
-        if rng.random() < 0.2:
-            s.ensure([c, [g.bool_expr(1)]])
-        else:
-            s.ensure(c)
+        post(s, g, rng, depth)
     return s, bools, ints
 
 
-def brute_models(solver, limit=200000):
-    """All models by enumeration with the harness's own evaluator."""
+def brute_models(solver, limit=200000, shadow=True):
+    """All models by enumeration.  With shadow=True (default, when available) the meaning of each posted constraint is
+    the shadow closure recorded at construction time; otherwise the harness's evaluator on the printed tree."""
     import itertools
     from cspuz.expr import BoolVar
     names, doms = [], []
@@ -150,16 +220,21 @@ def brute_models(solver, limit=200000):
         else:
             names.append(f"i{v.id}")
             doms.append(list(range(v.lo, v.hi + 1)))
-    from .core import parse_sx
-    cs = [parse_sx(exprio.pexpr(c)) for c in solver.constraints]
     total = 1
     for d in doms:
         total *= len(d)
     if total > limit:
         raise OverflowError
+    sems = getattr(solver, "_verif_sems", None) if shadow else None
+    if sems is not None and len(sems) == len(solver.constraints):
+        checks = sems
+    else:
+        from .core import parse_sx
+        cs = [parse_sx(exprio.pexpr(c)) for c in solver.constraints]
+        checks = [(lambda a, c=c: exprio.ev(c, a) is True) for c in cs]
     out = []
     for combo in itertools.product(*doms):
         asg = dict(zip(names, combo))
-        if all(exprio.ev(c, asg) is True for c in cs):
+        if all(ch(asg) is True or ch(asg) == True for ch in checks):  # noqa: E712
             out.append(asg)
     return out
